@@ -81,7 +81,7 @@ theorem abs_set {m : OMap K V} (I : Inv norm hash m) (hnorm : ∀ k, norm (norm 
   obtain ⟨_, h2, h3⟩ := lookup_spec norm hash I k
   unfold Spec.set
   rw [hf]
-  unfold set
+  unfold set setWith
   generalize lookup norm hash m k = r at h2 h3
   obtain ⟨h, e, hPrev⟩ := r
   simp only at h2 h3 ⊢
@@ -117,7 +117,7 @@ theorem get_refines {m : OMap K V} (I : Inv norm hash m) (hnorm : ∀ k, norm (n
     get norm hash m k = Spec.get norm (abs m) k := by
   have hf := find_eq_lookup norm hash I hnorm k
   obtain ⟨_, h2, h3⟩ := lookup_spec norm hash I k
-  unfold Spec.get get
+  unfold Spec.get get getWith
   rw [hf]
   generalize lookup norm hash m k = r at h2 h3
   obtain ⟨h, e, hPrev⟩ := r
@@ -138,7 +138,7 @@ theorem remove_refines {m : OMap K V} (I : Inv norm hash m) (hnorm : ∀ k, norm
     (remove norm hash m k).2 = (Spec.delete norm (abs m) k).2 := by
   have hf := find_eq_lookup norm hash I hnorm k
   obtain ⟨_, h2, h3⟩ := lookup_spec norm hash I k
-  unfold Spec.delete remove
+  unfold Spec.delete remove removeWith
   rw [hf]
   generalize lookup norm hash m k = r at h2 h3
   obtain ⟨h, e, hPrev⟩ := r
